@@ -92,7 +92,32 @@ func (pac *PACType) Unmarshal(b []byte) (err error) {
 // ProcessPACInfoBuffers processes the PAC Info Buffers.
 // https://msdn.microsoft.com/en-us/library/cc237954.aspx
 func (pac *PACType) ProcessPACInfoBuffers(key types.EncryptionKey, l *log.Logger) error {
+	// The signature buffers are processed first so that the server checksum can be verified
+	// before any of the other buffers is decoded.
+	for pass := 0; pass < 2; pass++ {
+		if pass == 1 {
+			if ok, err := pac.verifyServerChecksum(key); !ok {
+				return err
+			}
+		}
+		if err := pac.processPACInfoBuffers(pass == 0, l); err != nil {
+			return err
+		}
+	}
+
+	if ok, err := pac.verify(key); !ok {
+		return err
+	}
+
+	return nil
+}
+
+// processPACInfoBuffers decodes either the signature buffers or all the other buffers.
+func (pac *PACType) processPACInfoBuffers(signatures bool, l *log.Logger) error {
 	for _, buf := range pac.Buffers {
+		if (buf.ULType == infoTypePACServerSignatureData || buf.ULType == infoTypePACKDCSignatureData) != signatures {
+			continue
+		}
 		if buf.Offset > uint64(len(pac.Data)) || buf.Offset+uint64(buf.CBBufferSize) > uint64(len(pac.Data)) {
 			return fmt.Errorf("PAC info buffer of type %d is outside the PAC data", buf.ULType)
 		}
@@ -222,11 +247,6 @@ func (pac *PACType) ProcessPACInfoBuffers(key types.EncryptionKey, l *log.Logger
 			pac.DeviceClaimsInfo = &k
 		}
 	}
-
-	if ok, err := pac.verify(key); !ok {
-		return err
-	}
-
 	return nil
 }
 
@@ -242,6 +262,13 @@ func (pac *PACType) verify(key types.EncryptionKey) (bool, error) {
 	}
 	if pac.ClientInfo == nil {
 		return false, errors.New("PAC Info Buffers does not contain a ClientInfo")
+	}
+	return pac.verifyServerChecksum(key)
+}
+
+func (pac *PACType) verifyServerChecksum(key types.EncryptionKey) (bool, error) {
+	if pac.ServerChecksum == nil {
+		return false, errors.New("PAC Info Buffers does not contain a ServerChecksum")
 	}
 	etype, err := crypto.GetChksumEtype(int32(pac.ServerChecksum.SignatureType))
 	if err != nil {
